@@ -42,6 +42,7 @@ PROP = dict(
                            "dispatch::resize": 20000, "dispatch::insert": 8000, "resize:shrink-ended-registrations": 5000,
                            "resize:grow": 5000, "resize:grow-over-ended-registrations": 1500, "insert:accepted": 5000,
                            "monitor:traits-slot-compared": 15000,
+                           "monitor:set-default-refused": 10000, "default:refused-while-valid-default": 2000,
                            "fini:reserve-created-table-with-live-handlers": 3000})],
         rule=("case = one PRNG history of 10..70 (thorough 120) dispatcher operations ending in mpt_dispatch_fini, or (every 8th case) one "
               "history of 10..300 reserve/release operations on a reservation table ending in mpt_command_clear; C++ leg: 8..50 operations "
